@@ -128,8 +128,12 @@ func (fr *FuncRun) callCommon(f *Frame, st *State, c *ssa.CallCommon, fnVal Val,
 }
 
 func (fr *FuncRun) bumpCallCount(st *State, name string) {
-	fr.touchCounter("calls:" + name)
-	key := cellKey{0, "calls:" + name}
+	fr.bumpCounter(st, "calls:"+name)
+}
+
+func (fr *FuncRun) bumpCounter(st *State, k string) {
+	fr.touchCounter(k)
+	key := cellKey{0, k}
 	old, ok := st.cells[key]
 	if !ok {
 		old = Val{T: "0", S: sInt}
@@ -396,6 +400,10 @@ func (fr *FuncRun) execGo(f *Frame, st *State, x *ssa.Go) {
 	fnVal := fr.val(f, st, c.Value)
 	name := calleeName(c)
 	fr.bumpCallCount(st, "go")
+	if fr.eng.contracts.startedNames[name] {
+		// started(X): the number of goroutines started with function X
+		fr.bumpCounter(st, "started:"+name)
+	}
 	fr.callOrdGlobal["go"] = goOrdinal(f.fn, x)
 	fr.atCallAsserts(f, st, c, "go", fr.callOrdGlobal["go"], fnVal, args, x.Pos())
 	fr.ghostUpdates(f, st, c, "go", fnVal, args)
